@@ -98,10 +98,14 @@ func Finalize(writer io.WriterAt, header carv2.Header, idx *index.InsertionIndex
 	if err != nil {
 		return err
 	}
-	if _, err := index.WriteTo(fi, internalio.NewOffsetWriter(writer, int64(header.IndexOffset))); err != nil {
+	// Write the header before the index. If the process dies in between, the header already tells
+	// where the data payload ends, so Resume can cut off whatever part of the index made it to the
+	// file. In the opposite order a crash leaves an unfinalized header followed by index bytes that
+	// cannot be told apart from data sections.
+	if _, err := header.WriteTo(internalio.NewOffsetWriter(writer, carv2.PragmaSize)); err != nil {
 		return err
 	}
-	if _, err := header.WriteTo(internalio.NewOffsetWriter(writer, carv2.PragmaSize)); err != nil {
+	if _, err := index.WriteTo(fi, internalio.NewOffsetWriter(writer, int64(header.IndexOffset))); err != nil {
 		return err
 	}
 	return nil
